@@ -5,6 +5,7 @@ package c12
 import (
 	"testing"
 
+	"pgregory.net/rapid"
 	"verif/vkit"
 )
 
@@ -20,10 +21,28 @@ func TestResumeMemory(t *testing.T)  { vkit.Check(t, collMem, Gen("memory"), Run
 func TestResumeSQLite(t *testing.T)  { vkit.Check(t, collSQL, Gen("sqlite"), Run) }
 func TestResumeDurable(t *testing.T) { vkit.Check(t, collDS, Gen("durable"), Run) }
 
+var collSched = vkit.NewCollector("C12", "TestScheduledPublishers", "1-3 publishers of 1-3 events each on a bus with a live replay subscription, run under the cooperative scheduler (context switches between a publish's append and its dispatch (the subscription's filter), at every handler and before every SaveOffset; the schedule is drawn), the process dying before a drawn scheduling step, then a restart with SubscribeWithReplay. Oracle: no persisted event of the type is lost, no repeats without a crash, first deliveries in log order. Non-trivial = >=2 publishers and a crash.")
+
+func TestScheduledPublishers(t *testing.T) {
+	rapid.Check(t, func(rt *rapid.T) {
+		c := GenSched(rt)
+		if v := collSched.Account(c, RunSched(t, c)); v != nil {
+			vkit.SaveFail("C12", "TestScheduledPublishers", c, v)
+			rt.Fatalf("%s", v.Error())
+		}
+	})
+}
+
+var collFree = vkit.NewCollector("C12", "TestFreePublishers", "2-6 free-running publishers x 1-10 events of the subscribed type on a bus with a live replay subscription (memory store), SaveOffset delayed by drawn yields, 10 fresh buses per case, race detector, drawn GOMAXPROCS. Oracle: every event delivered live exactly once, the sequence of completed SaveOffset calls never moves backwards, and after quiescence the saved offset is the last event's. Non-trivial = >=2 publishers.")
+
+func TestFreePublishers(t *testing.T) { vkit.Check(t, collFree, GenFree, RunFree) }
+
 var collProbe = vkit.NewCollector("C12", "TestKnownProbes", "deterministic replay of the history behind the listed known finding")
 
 func TestKnownProbes(t *testing.T) {
-	if v := collProbe.Judge(Probes().Viol); v != nil {
+	vs := Probes().Viol
+	vs = append(vs, RunSched(t, SchedProbe()).Viol...)
+	if v := collProbe.Judge(vs); v != nil {
 		vkit.SaveFail("C12", "TestKnownProbes", map[string]string{"probe": v.Sig}, v)
 		t.Fatalf("%s", v.Error())
 	}
@@ -31,5 +50,5 @@ func TestKnownProbes(t *testing.T) {
 
 func TestReplay(t *testing.T) {
 	r := vkit.NeedReplay(t)
-	_ = vkit.ReplayCase(t, r, collMem, Run) || vkit.ReplayCase(t, r, collSQL, Run) || vkit.ReplayCase(t, r, collDS, Run)
+	_ = vkit.ReplayCase(t, r, collSched, func(c *SchedCase) *vkit.Outcome { return RunSched(t, c) }) || vkit.ReplayCase(t, r, collFree, RunFree) || vkit.ReplayCase(t, r, collMem, Run) || vkit.ReplayCase(t, r, collSQL, Run) || vkit.ReplayCase(t, r, collDS, Run)
 }
